@@ -17,14 +17,14 @@ ALL_INVS = {
 ACTS = {
     'C03': {'Hist', 'Events', 'Prev', 'Next'},
     'C04': {'Hist', 'Jumps', 'Mono'},
-    'C05': {'Hist', 'Jumps', 'Matrix', 'Counter', 'Edges', 'Occ', 'AtomLoc', 'OccType', 'JumpDiff', 'Split', 'Rates'},
+    'C05': {'Hist', 'Jumps', 'Matrix', 'Counter', 'Edges', 'Occ', 'AtomLoc', 'OccType', 'EdgeCounts', 'JumpDiff', 'Split', 'Rates'},
     'C19': {'Hist', 'Split', 'TrajSplit', 'Rates'},
 }
 # verdicts that belong to another property's clause are not judged by this property
 JUDGED = {
     'C03': {'Events', 'Prev', 'Next'},
     'C04': {'Jumps', 'Mono'},
-    'C05': {'Matrix', 'Counter', 'Edges', 'Occ', 'AtomLoc', 'OccType', 'JumpDiff', 'Rates'},
+    'C05': {'Matrix', 'Counter', 'Edges', 'Occ', 'AtomLoc', 'OccType', 'EdgeCounts', 'JumpDiff', 'Rates'},
     'C19': {'Split', 'TrajSplit'},
 }
 
